@@ -73,6 +73,11 @@ ASSUMPTIONS = [
     "(validated against the real file after every recorded op)",
     "loadable restart image = ase.io.jsonio.read_json succeeds and returns step_count/atoms of a state that was saved; "
     "in the model: the image is one of the completed documents",
+    "logger table: Python's str.format is modelled for literal text (no ':' '{' '}') and placeholders {:[<>^][width]s|d} with "
+    "string and integer values (padding rules, str(int), IndexError/ValueError/TypeError); float formatting, fill characters, "
+    "sign/zero flags and nested fields are outside the model (DESIGN 12.8g lists what the real code does there)",
+    "file linking: the model decides from the attributes the setter inspects (read/write/IOBase/closed/seekable()/seek); the "
+    "harness computes them with hasattr on the very object it hands over",
 ]
 
 
